@@ -71,6 +71,10 @@ func (c *Client) ConsumerOffsets(ctx context.Context, tg TopicAndGroup) (map[int
 		return nil, fmt.Errorf("failed to get topic metadata :%w", err)
 	}
 
+	if len(metadata.Topics) == 0 {
+		return nil, fmt.Errorf("failed to get topic metadata: no topic in the response for %q", tg.Topic)
+	}
+
 	topic := metadata.Topics[0]
 	partitions := make([]int, len(topic.Partitions))
 
